@@ -93,11 +93,22 @@ _HARDCODED_EXCLUDE_DIRS: frozenset[str] = frozenset(
 )
 
 
-def _is_hardcoded_excluded(file_path: Path) -> bool:
+def _directory_parts_in_project(file_path: Path, project_root: Path | None) -> tuple[str, ...]:
+    """Directory components of file_path below project_root (all of them if it is elsewhere)."""
+    if project_root is not None:
+        try:
+            return file_path.resolve().relative_to(project_root.resolve()).parts[:-1]
+        except (ValueError, OSError):
+            pass
+    return file_path.parts[:-1]
+
+
+def _is_hardcoded_excluded(file_path: Path, project_root: Path | None = None) -> bool:
     """Check if file should be excluded based on hardcoded patterns.
 
     Args:
         file_path: Path to check
+        project_root: Project root; directories leading to it do not decide exclusion
 
     Returns:
         True if file should be skipped (compiled file, cache directory, etc.)
@@ -106,8 +117,8 @@ def _is_hardcoded_excluded(file_path: Path) -> bool:
     if file_path.suffix in _HARDCODED_EXCLUDE_EXTENSIONS:
         return True
 
-    # Check if any parent directory is in the exclude list
-    for part in file_path.parts:
+    # Check if any parent directory (inside the project) is in the exclude list
+    for part in _directory_parts_in_project(file_path, project_root):
         if part in _HARDCODED_EXCLUDE_DIRS:
             return True
         # Handle wildcard patterns like *.egg-info
@@ -283,7 +294,7 @@ class Orchestrator:  # thailint: ignore[srp]
             List of violations found in the file.
         """
         # Fast path: skip compiled files and common excluded directories
-        if _is_hardcoded_excluded(file_path):
+        if _is_hardcoded_excluded(file_path, self.project_root):
             return []
 
         if self.ignore_parser.is_ignored(file_path):
